@@ -28,12 +28,14 @@ import pfimport  # noqa: F401
 import c05_cleanup
 import c05_crashfs as crashfs
 import c05_fstrace as fstrace
+import c05_keys
 import c05_mutres
+import c05_parfail
 import mapgen
 import terms
 
 PID = "C05"
-PROPS = ["PfModel.Props.C05", "PfModel.Props.C05Par", "PfModel.Props.C05Hist"]
+PROPS = ["PfModel.Props.C05", "PfModel.Props.C05Par", "PfModel.Props.C05Hist", "PfModel.Props.C05ParFail", "PfModel.Props.C05Key"]
 DRIVER = "C05"
 RULE = ("corpus (element-wise map + reduction on file_array and dict; an un-mapped tuple-output function with a custom output_picker) then "
         "well-formed map pipelines of 1-3 functions from mapgen (element-wise/zip, outer product, partial and full reduction, internal axes via "
@@ -42,14 +44,19 @@ RULE = ("corpus (element-wise map + reduction on file_array and dict; an un-mapp
         "1 byte and all-but-one byte for the first write and run_info.json), each state resumed in a fresh interpreter; every user call index as "
         "raise point; second crashes inside traced resumed runs: first interruption = random in-between states, the COMPLETE folder, the first state "
         "inside the persist loop of dict storage, a raising call; second interruption = random crash points of the resumed run plus every window in "
-        "which its trace has lost a file that was complete when it started; the third run is judged against what was stored after EITHER interruption. "
+        "which its trace has lost a file that was complete when it started; the third run is judged against what was stored after EITHER interruption; "
+        "pool runs (permuting executor) in which the idx-th call of a function RAISES while the other bodies of the generation still run and store (the stored set "
+        "is not a prefix), then resumed (thorough: killed inside, and a second failing pool run on what the first left); key <-> linear index on the real "
+        "storage classes for random shapes (1-3 axes) and arbitrary stored subsets. "
         "A case = (pipeline, storage, mode, crash history); non-trivial = the crashed folder is neither empty nor complete; distinct by digest of the case")
 ASSUMPTIONS = ["process death is modelled as stopping between or inside file-system calls with POSIX rename atomic; loss of un-synced data and "
                "kills inside CPython's buffered writer are represented only by the torn-write states",
                "the re-run uses the same pipeline and inputs (the comparison with the previous run is between equal requests)",
                "shutil.rmtree of cleanup=True is atomic in the model; first runs start in a folder that does not exist",
                "shared_memory_dict (a manager-backed dict persisted like `dict`; model: `Cfg.dict`) is exercised sequentially only: one corpus pipeline, three generated ones in thorough",
-               "pool runs (thread pools only; process pools are not exercised): every global prefix of the merged strace order is taken as a crash state"]
+               "pool runs (thread pools only; process pools are not exercised): every global prefix of the merged strace order is taken as a crash state",
+               "a raising user call inside a pool run is exercised with the permuting executor only (bodies atomic, every submitted body runs); pools that cancel or "
+               "overlap bodies are covered by the theorem's `SubSched` hypothesis (any selection of the submitted bodies), not by generated cases"]
 
 WORKERS = int(os.environ.get("VERIF_C05_WORKERS", "16"))
 DICT_LIKE = ("dict", "shared_memory_dict")      # memory storages persisted at the end of the run into outputs/<o>/dict_array.cloudpickle (model: `Cfg.dict`)
@@ -663,30 +670,45 @@ def unmodelled(ctx, rec, st):
 
 
 # ------------------------------------------------------------------------------------------------ entry points
+def _main_stream(ctx, lab, quick):
+    cases = [copy.deepcopy(c) for c in CORPUS]
+    for k in range(ctx.n(3, 30)):
+        d = gen_case(ctx.rng)
+        mapped = [f["name"] for f in d["funcs"] if f["mapspec"] and f["mapspec"]["inputs"]]
+        other = [n for n in mapped if ctx.rng.random() < 0.5] if k % 4 == 3 else []      # every 4th pipeline: a per-output storage mix
+        storage = "file_array" if k % 3 != 2 else "shared_memory_dict" if k % 12 == 5 and not other else "dict"      # (k = 5, 17, 29: thorough only)
+        cases.append({"desc": d, "storage": storage, "other": other, "mode": "seq", "picker": []})
+    for k in range(ctx.n(1, 6)):          # bodies of every generation in a random order (C03's permuting executor): `runOnP`
+        cases.append({"desc": gen_case(ctx.rng), "storage": ["file_array", "dict"][k % 2], "mode": "perm", "perm_seed": ctx.rng.randrange(10**6),
+                      "picker": [], "other": [], "max_states": 16 if quick else None})
+    if not quick:
+        for k in range(ctx.n(1, 8)):
+            cases.append({"desc": gen_case(ctx.rng), "storage": ["file_array", "dict"][k % 2], "mode": "threads", "picker": []})
+    check_all(ctx, lab, cases, second=1 if quick else 3, max_states=28 if quick else 200, max_raises=6 if quick else None, second_pts=4 if quick else 24,
+              raises2=1, raise_firsts_cap=12 if quick else 10**9)      # quick: raise-then-kill histories for the first pipelines only (corpus)
+    ctx.notes.append(f"t(crash enumeration)={ctx.elapsed():.1f}s")
+
+
 def run(ctx):
     lab = Lab()
     try:
         quick = ctx.tier == "quick"
-        cases = [copy.deepcopy(c) for c in CORPUS]
-        for k in range(ctx.n(3, 30)):
-            d = gen_case(ctx.rng)
-            mapped = [f["name"] for f in d["funcs"] if f["mapspec"] and f["mapspec"]["inputs"]]
-            other = [n for n in mapped if ctx.rng.random() < 0.5] if k % 4 == 3 else []      # every 4th pipeline: a per-output storage mix
-            storage = "file_array" if k % 3 != 2 else "shared_memory_dict" if k % 12 == 5 and not other else "dict"      # (k = 5, 17, 29: thorough only)
-            cases.append({"desc": d, "storage": storage, "other": other, "mode": "seq", "picker": []})
-        for k in range(ctx.n(1, 6)):          # bodies of every generation in a random order (C03's permuting executor): `runOnP`
-            cases.append({"desc": gen_case(ctx.rng), "storage": ["file_array", "dict"][k % 2], "mode": "perm", "perm_seed": ctx.rng.randrange(10**6),
-                          "picker": [], "other": [], "max_states": 16 if quick else None})
-        if not quick:
-            for k in range(ctx.n(1, 8)):
-                cases.append({"desc": gen_case(ctx.rng), "storage": ["file_array", "dict"][k % 2], "mode": "threads", "picker": []})
-        check_all(ctx, lab, cases, second=1 if quick else 3, max_states=36 if quick else 200, max_raises=6 if quick else None, second_pts=4 if quick else 24,
-                  raises2=1, raise_firsts_cap=12 if quick else 10**9)      # quick: raise-then-kill histories for the first pipelines only (corpus)
-        ctx.notes.append(f"t(crash enumeration)={ctx.elapsed():.1f}s")
-        c05_cleanup.stream(ctx, lab, quick)      # kills inside the removal of cleanup=True, then cleanup=False
-        ctx.notes.append(f"t(+cleanup stream)={ctx.elapsed():.1f}s")
-        c05_mutres.stream(ctx, lab, quick)       # resumes with a mutated request: refused, or equal to a fresh run of that request
-        ctx.notes.append(f"t(+mutated-resume stream)={ctx.elapsed():.1f}s")
+        only = set(filter(None, os.environ.get("VERIF_C05_ONLY", "").split(",")))      # debugging aid (mutation runs): a subset of main,cleanup,mutres,parfail
+        pre = c05_parfail.prestart(ctx, lab, quick) if not only or "parfail" in only else None      # its real runs overlap with the phases below
+        if not only or "main" in only:
+            _main_stream(ctx, lab, quick)
+        if not only or "cleanup" in only:
+            c05_cleanup.stream(ctx, lab, quick)      # kills inside the removal of cleanup=True, then cleanup=False
+            ctx.notes.append(f"t(+cleanup stream)={ctx.elapsed():.1f}s")
+        if not only or "mutres" in only:
+            c05_mutres.stream(ctx, lab, quick)       # resumes with a mutated request: refused, or equal to a fresh run of that request
+            ctx.notes.append(f"t(+mutated-resume stream)={ctx.elapsed():.1f}s")
+        if not only or "keys" in only:
+            c05_keys.stream(ctx, lab, quick)         # key <-> linear index on the real storages, arbitrary stored subsets
+            ctx.notes.append(f"t(+keys stream)={ctx.elapsed():.1f}s")
+        if pre is not None:
+            c05_parfail.stream(ctx, lab, quick, pre)     # pool runs in which a user call raises: later elements stored next to the failed one
+            ctx.notes.append(f"t(+raising-pool-run stream)={ctx.elapsed():.1f}s")
     finally:
         lab.close()
 
@@ -701,6 +723,10 @@ def replay(ctx, rec):
         if "mutate" in kinds:
             import c05_mutres
             return c05_mutres.replay(ctx, lab, rec)
+        if "keys" in kinds:
+            return c05_keys.replay(ctx, lab, rec)
+        if "raise-par" in kinds:
+            return c05_parfail.replay(ctx, lab, rec)
         if "cleanup-kill" in kinds:
             try:
                 import c05_cleanup
